@@ -6,6 +6,8 @@ import (
 	"fmt"
 	"strings"
 
+	"github.com/freeconf/yang/fc"
+	"github.com/freeconf/yang/meta"
 	"github.com/freeconf/yang/node"
 	"verif/internal/eng"
 	"verif/internal/model"
@@ -62,6 +64,13 @@ var c12Scenarios = []c12Scenario{
 }
 
 type c12Case struct {
+	// generated scenarios: all (T,S) pairs to a size bound for one schema / operation / entry point
+	Gen    string       `json:"gen,omitempty"` // schema
+	Op     string       `json:"op,omitempty"`
+	Entry  string       `json:"entry,omitempty"`
+	B      int          `json:"B,omitempty"`
+	Inline *c12Scenario `json:"inline,omitempty"` // replay of one generated scenario
+
 	Scenario string `json:"scenario"`
 	K        int    `json:"k"`  // -1: whole sweep
 	K2       int    `json:"k2"` // -1: none; -2: sweep all pairs
@@ -71,7 +80,28 @@ func (p *c12) Bounds(tier string) map[string]interface{} {
 	return map[string]interface{}{"scenarios": len(c12Scenarios), "single_faults": "every callback position k of every scenario", "fault_pairs": tier == "thorough"}
 }
 
+func c12GenB(tier string) int {
+	if tier == "thorough" {
+		return 4
+	}
+	return 3
+}
+
 func (p *c12) Cases(tier string, emit func(interface{})) {
+	for _, schema := range []string{"base", "choice"} {
+		for _, op := range []string{"upsert", "insert", "update", "replace", "delete"} {
+			entries := c03Entries[schema]
+			if schema == "choice" {
+				entries = []string{"", "w", "e=a"}
+			}
+			for _, entry := range entries {
+				if (op == "replace" || op == "delete") && entry == "" {
+					continue
+				}
+				emit(c12Case{Gen: schema, Op: op, Entry: entry, B: c12GenB(tier), K: -1, K2: -1})
+			}
+		}
+	}
 	for _, s := range c12Scenarios {
 		emit(c12Case{Scenario: s.Name, K: -1, K2: -1})
 		if tier == "thorough" {
@@ -287,7 +317,8 @@ func c12Check(sc c12Scenario, run c12Run, faults []int) (sym, what string) {
 		}
 	}
 	if first < 0 {
-		if run.err != nil {
+		if run.err != nil && !errors.Is(run.err, fc.ConflictError) && !errors.Is(run.err, fc.NotFoundError) {
+			// insert into something existing / update of something missing are the defined failures of a strategy
 			return "error-without-fault", run.err.Error()
 		}
 		return "", ""
@@ -317,9 +348,17 @@ func c12Check(sc c12Scenario, run c12Run, faults []int) (sym, what string) {
 func (p *c12) Run(raw json.RawMessage) eng.Result {
 	var c c12Case
 	decode(raw, &c)
+	if c.Gen != "" {
+		return c12RunGen(c)
+	}
 	var res eng.Result
 	ss := &sigSet{res: &res}
-	sc := c12ScenarioBy(c.Scenario)
+	sc := c12Scenario{}
+	if c.Inline != nil {
+		sc = *c.Inline
+	} else {
+		sc = c12ScenarioBy(c.Scenario)
+	}
 	base := c12Exec(sc, nil)
 	res.Evals++
 	report := func(sym, what string, k, k2 int) {
@@ -331,7 +370,11 @@ func (p *c12) Run(raw json.RawMessage) eng.Result {
 			return
 		}
 		ss.seen[sig] = true
-		res.AddCase(sig, fmt.Sprintf("scenario %s: %s", sc.Name, what), c12Case{Scenario: sc.Name, K: k, K2: k2})
+		rc := c12Case{Scenario: sc.Name, K: k, K2: k2}
+		if c.Inline != nil {
+			rc.Inline = c.Inline
+		}
+		res.AddCase(sig, fmt.Sprintf("scenario %s: %s", sc.Name, what), rc)
 	}
 	if sym, what := c12Check(sc, base, nil); sym != "" {
 		report("fault-free/"+sym, what, -3, -1)
@@ -402,8 +445,124 @@ func (p *c12) Run(raw json.RawMessage) eng.Result {
 }
 
 func scenarioClass(sc c12Scenario) string {
-	if strings.HasPrefix(sc.Name, "choice") {
+	if strings.HasPrefix(sc.Name, "choice") || sc.Schema == "choice" {
 		return sc.Op + "+choice-switch"
 	}
 	return sc.Op
+}
+
+// c12RunGen sweeps every single fault position of every generated scenario of one
+// (schema, operation, entry point): all target trees T and sources S with |T|+|S| <= B.
+func c12RunGen(c c12Case) eng.Result {
+	var res eng.Result
+	m := model.SharedSchema(c.Gen)
+	ep := entryPoint{c.Entry}
+	a := model.DefaultAlpha()
+	ts := model.GenTrees(m.DataDefinitions(), c.B, a)
+	var srcs []*model.Tree
+	if c.Op != "delete" {
+		if c.Op == "replace" {
+			srcs = c12ReplaceSources(m, ep, c.B, a)
+		} else {
+			srcs = c03Sources(m, ep, c.B, a)
+		}
+	} else {
+		srcs = []*model.Tree{nil}
+	}
+	seenSig := map[string]bool{}
+	ocs := map[string]bool{}
+	for _, t := range ts {
+		tt, tl := ep.locate(m, t)
+		if tt == nil && tl == nil {
+			continue
+		}
+		tj := t.ToJSON(m.DataDefinitions())
+		for _, s := range srcs {
+			sj := ""
+			if s != nil {
+				if s.Size()+t.Size() > c.B {
+					continue
+				}
+				if c.Op == "replace" {
+					sj = s.ToJSON(entryDocDefs(m, c12ReplaceParent(m, ep)))
+				} else {
+					b, _ := json.Marshal(treeJSON(m, ep, s, true))
+					sj = string(b)
+				}
+			}
+			sc := c12Scenario{Name: "generated", Schema: c.Gen, T: tj, Entry: c.Entry, Op: c.Op, Dir: "from", S: sj}
+			if c.Op == "delete" {
+				sc.Dir, sc.S = "", ""
+			}
+			r := (&c12{}).Run(mustJSON(c12Case{Inline: &sc, K: -1, K2: -1}))
+			res.Evals += r.Evals
+			res.Nontriv += r.Nontriv
+			res.States++
+			for _, o := range r.Outcomes {
+				ocs[o] = true
+			}
+			for _, v := range r.Viols {
+				if !seenSig[v.Sig] {
+					seenSig[v.Sig] = true
+					res.Viols = append(res.Viols, v)
+				}
+			}
+		}
+	}
+	for o := range ocs {
+		res.Outcomes = append(res.Outcomes, o)
+	}
+	if len(res.Outcomes) > 12 {
+		res.Outcomes = res.Outcomes[:12]
+	}
+	return res
+}
+
+func mustJSON(v interface{}) json.RawMessage {
+	b, err := json.Marshal(v)
+	if err != nil {
+		panic(err)
+	}
+	return b
+}
+
+// c12ReplaceParent: the node whose level a replace document is rooted at.
+func c12ReplaceParent(m *meta.Module, ep entryPoint) entryPoint {
+	parent, _ := splitLast(ep.Path)
+	if ep.kind(m) == "entry" {
+		return entryPoint{ep.Path[:strings.LastIndex(ep.Path, "=")]}
+	}
+	return entryPoint{parent}
+}
+
+// c12ReplaceSources: documents holding exactly the addressed node with new content.
+func c12ReplaceSources(m *meta.Module, ep entryPoint, max int, a model.Alpha) []*model.Tree {
+	pep := c12ReplaceParent(m, ep)
+	var out []*model.Tree
+	for _, t := range model.GenTrees(entryDocDefs(m, pep), max, a) {
+		switch ep.kind(m) {
+		case "entry":
+			lm := ep.def(m).(*meta.List)
+			l, ok := t.Lists[lm.Ident()]
+			key := ep.Path[strings.LastIndex(ep.Path, "=")+1:]
+			if !ok || len(l.Entries) != 1 || len(t.Leaves)+len(t.Conts)+len(t.Lists) != 1 {
+				continue
+			}
+			if keyText(l.Entries[0].Leaves[lm.KeyMeta()[0].Ident()].Canon) != key || len(lm.KeyMeta()) != 1 {
+				continue
+			}
+			out = append(out, t)
+		case "container":
+			_, id := splitLast(ep.Path)
+			if _, ok := t.Conts[id]; ok && len(t.Leaves)+len(t.Conts)+len(t.Lists) == 1 {
+				out = append(out, t)
+			}
+		case "list":
+			_, id := splitLast(ep.Path)
+			if _, ok := t.Lists[id]; ok && len(t.Leaves)+len(t.Conts)+len(t.Lists) == 1 {
+				out = append(out, t)
+			}
+		}
+	}
+	return out
 }
